@@ -113,9 +113,110 @@ def exec_i2s(ctx, invs, count, nmin, nmax, nres=8, dispatches=3, extra=(), paral
     return st
 
 
-def classify_block(blk, inv):
-    """Key of a known finding this violating block belongs to, or None."""
+def classify_block(ctx, blk, inv, idx, invariants):
+    """Key of a known finding this violating block belongs to, or None.
+    KF1 (key inner-tl): a thread-local system registered on a builder that is passed to add_batch.
+      * C12: the failing event is the fetch of such a system (it runs on a pool worker);
+      * C01/C07: the violation disappears when the accesses of inner thread-local systems are
+        left out of the batch's union (decided by TLC on the modified block), i.e. the only
+        thing wrong is that the real batch accessor does not contain them."""
+    evs = [json.loads(x) for x in blk]
+    inner_tl = {e["id"] for e in evs if e["ev"] == "tl" and e["b"] != 1}
+    if not inner_tl:
+        return None
+    if inv == "InvC12":
+        e = evs[idx - 1] if 0 < idx <= len(evs) else None
+        if e and e["ev"] == "fetch" and e["s"] in inner_tl:
+            return "inner-tl"
+        return None
+    if inv in ("InvC01s", "InvC01x", "InvC07", "InvC05"):
+        mod = []
+        for e in evs:
+            if e["ev"] == "tl" and e["b"] != 1:
+                e = dict(e, r=[], w=[])
+            mod.append(json.dumps(e) + "\n")
+        path = ctx.fresh("kf1", "ndjson")
+        with open(path, "w") as f:
+            f.writelines(mod)
+        res = tlc_trace(ctx, "ShredTrace", path, [i for i in invariants if i in ("InvC01s", "InvC01x", "InvC07")])
+        if res["accepted"]:
+            return "inner-tl"
     return None
+
+
+# ------------------------------------------------------------------ executor model
+
+EXEC_CFGS = {
+    # every plan over 4 layouts x all access assignments admitted by the planner's guarantee,
+    # every interleaving, one injected panic
+    "flat": dict(Res="{1,2}", NSys=4, Layouts="LayoutsFlat4", TLs="NoTL", BatchSys=0, InnerLayout="NoInner", BatchN=0,
+                 W=4, MaxPanics=1, K=1, Modes="ModesPar", MaxDeps=0, Barriers="FALSE"),
+    "deps": dict(Res="{1}", NSys=4, Layouts="LayoutsFlat4", TLs="NoTL", BatchSys=0, InnerLayout="NoInner", BatchN=0,
+                 W=4, MaxPanics=1, K=1, Modes="ModesParSeq", MaxDeps=1, Barriers="TRUE"),
+    "tl": dict(Res="{1}", NSys=4, Layouts="LayoutsTL", TLs="TL_34", BatchSys=0, InnerLayout="NoInner", BatchN=0,
+               W=2, MaxPanics=1, K=2, Modes="ModesAll", MaxDeps=0, Barriers="FALSE"),
+    "batch": dict(Res="{1}", NSys=5, Layouts="LayoutsBatch", TLs="NoTL", BatchSys=2, InnerLayout="InnerPar", BatchN=2,
+                  W=3, MaxPanics=1, K=1, Modes="ModesPar", MaxDeps=0, Barriers="FALSE"),
+    "batchseq": dict(Res="{1}", NSys=5, Layouts="LayoutsBatch", TLs="NoTL", BatchSys=2, InnerLayout="InnerSeq", BatchN=2,
+                     W=2, MaxPanics=1, K=1, Modes="ModesParSeq", MaxDeps=0, Barriers="FALSE"),
+    "flat2": dict(Res="{1,2}", NSys=4, Layouts="LayoutsFlat4", TLs="NoTL", BatchSys=0, InnerLayout="NoInner", BatchN=0,
+                  W=2, MaxPanics=2, K=2, Modes="ModesParSeq", MaxDeps=0, Barriers="FALSE"),
+}
+OPERATOR_CONSTS = ("Layouts", "TLs", "InnerLayout", "Modes")
+
+
+def exec_mc(ctx, name, invs, workers=8):
+    c = EXEC_CFGS[name]
+    lines = ["SPECIFICATION Spec", "CHECK_DEADLOCK FALSE", "CONSTANTS"]
+    for k, v in c.items():
+        lines.append("  %s %s %s" % (k, "<-" if k in OPERATOR_CONSTS else "=", v))
+    lines.append("INVARIANTS")
+    lines += ["  " + i for i in invs]
+    res = tlc_mc(ctx, "MCExec", "\n".join(lines) + "\n", workers=workers)
+    if res["violated"]:
+        rp = ctx.save_replay("model-Exec-%s-%s.txt" % (res["violated"], name), tail(res["out"], 300))
+        raise ToolError("the executor MODEL violates %s (%s): to be repaired in the spec, see %s" % (res["violated"], name, rp))
+    ctx.cov["states"] += res["distinct"]
+    ctx.cov["transitions"] += res["states"]
+    ctx.cov["model_runs"].append({"module": "MCExec", "config": name, "constants": c, "invariants": list(invs),
+                                  "states_generated": res["states"], "distinct": res["distinct"], "wall_s": res["wall_s"],
+                                  "exhaustive": True})
+
+
+def exec_scenarios(ctx, invs, progs, label):
+    """Fixed programs (hand-written scenarios) run for real and validated."""
+    inp = ctx.fresh("scn", "jsonl")
+    with open(inp, "w") as f:
+        for p in progs:
+            f.write(json.dumps(p) + "\n")
+    out = ctx.fresh("scn", "ndjson")
+    st = run_bin(ctx, "exec", ["prog", "--in", inp, "--out", out, "--seed", ctx.seed])
+    ctx.cov["impl_runs"].append({"kind": "impl->spec scenario programs: " + label, "programs": st["programs"],
+                                 "dispatches": st["dispatches"], "events": st["events"]})
+    ctx.cov["traces_validated_against_impl"] += st["dispatches"]
+    validate_blocks(ctx, "ShredTrace", out, invs, classify=classify_block)
+
+
+def add(r=(), w=(), deps=(), t=3, name=""):
+    return {"op": "add", "r": list(r), "w": list(w), "deps": list(deps), "t": t, "name": name}
+
+
+def tl(r=(), w=()):
+    return {"op": "tl", "r": list(r), "w": list(w)}
+
+
+def batch(inner, ctl=0, n=1, multi=False, deps=(), t=3, name=""):
+    return {"op": "batch", "ctl": ctl, "n": n, "multi": multi, "inner": {"ops": inner}, "deps": list(deps), "t": t, "name": name}
+
+
+# KF1 scenarios: thread-local systems on a builder handed to add_batch
+KF1_PROGS = [
+    {"prog": {"ops": [add(w=[1], name="outer"), batch([add(r=[2], name="in"), tl(r=[1])], name="batch")]},
+     "modes": ["disp", "seq", "par"], "gated": True},
+    {"prog": {"ops": [add(r=[1], name="o1"), add(r=[2], name="o2"),
+                      batch([tl(w=[1]), add(w=[3], name="i1"), tl(r=[3])], n=2, name="b"), tl(r=[1])]},
+     "modes": ["disp", "disp"], "gated": True},
+]
 
 
 def planner_family(ctx, prop, mc_extra_props=()):
@@ -142,8 +243,17 @@ def planner_family(ctx, prop, mc_extra_props=()):
     ]
 
 
-def exec_family(ctx, prop, extra=(), nopar=False):
+EXEC_MODEL_INVS = {
+    "C01": ["InvC01", "InvNoBorrowPanic"], "C02": ["InvC02"], "C03": ["InvC03"], "C04": ["InvC04"],
+    "C05": ["InvC05", "InvNoBorrowPanic"], "C07": ["InvC07", "InvC01", "InvC04", "InvNoBorrowPanic"],
+    "C12": ["InvC12"], "C14": ["InvC14", "InvC04"],
+}
+
+
+def exec_family(ctx, prop, extra=(), nopar=False, mc=("flat",), mc_thorough=()):
     invs = TRACE_INVS[prop]
+    for m in mc + (() if ctx.quick() else tuple(mc_thorough)):
+        exec_mc(ctx, m, EXEC_MODEL_INVS[prop])
     if ctx.quick():
         exec_i2s(ctx, invs, count=40, nmin=3, nmax=30, dispatches=3, extra=extra)
         exec_i2s(ctx, invs, count=4, nmin=60, nmax=150, nres=12, dispatches=2, extra=list(extra) + ["--gated", 0.5], seed_off=1)
@@ -162,22 +272,108 @@ def exec_family(ctx, prop, extra=(), nopar=False):
 
 def check_C01(ctx):
     planner_family(ctx, "C01")
-    exec_family(ctx, "C01")
+    exec_family(ctx, "C01", mc=("flat",), mc_thorough=("flat2", "batch", "deps"))
 
 
 def check_C02(ctx):
     planner_family(ctx, "C02")
-    exec_family(ctx, "C02", extra=["--pdep", 0.5])
+    exec_family(ctx, "C02", extra=["--pdep", 0.5], mc=("deps",), mc_thorough=("flat2",))
 
 
 def check_C03(ctx):
     planner_family(ctx, "C03")
-    exec_family(ctx, "C03", extra=["--pbarrier", 0.2])
+    exec_family(ctx, "C03", extra=["--pbarrier", 0.2], mc=("deps",), mc_thorough=("flat2",))
 
 
 def check_C04(ctx):
     planner_family(ctx, "C04")
-    exec_family(ctx, "C04", extra=["--modes", "disp,par,seq,tlonly,disp", "--ptl", 0.1])
+    exec_family(ctx, "C04", extra=["--modes", "disp,par,seq,tlonly,disp", "--ptl", 0.1], mc=("tl", "batch"),
+                mc_thorough=("flat2", "deps", "batchseq"))
+
+
+def check_C05(ctx):
+    exec_family(ctx, "C05", nopar=True, mc=("flat", "batchseq"), mc_thorough=("flat2", "deps", "tl", "batch"))
+
+
+def check_C07(ctx):
+    exec_family(ctx, "C07", extra=["--pbatch", 0.3, "--depth", 3, "--nmax", 20], mc=("batch", "batchseq"))
+    # the scenario of known finding KF1 (reported as KNOWN-FINDING while listed)
+    exec_scenarios(ctx, TRACE_INVS["C07"], KF1_PROGS, "thread-local system inside a batch")
+
+
+def check_C12(ctx):
+    exec_family(ctx, "C12", extra=["--ptl", 0.2, "--modes", "disp,disp,tlonly,seq"], mc=("tl",))
+    exec_scenarios(ctx, TRACE_INVS["C12"], KF1_PROGS, "thread-local system inside a batch")
+
+
+def check_C14(ctx):
+    exec_family(ctx, "C14", extra=["--ppanic", 0.6, "--modes", "disp,par,seq,disp"], mc=("flat", "tl"),
+                mc_thorough=("flat2", "batch", "deps"))
+
+
+def check_C18(ctx):
+    # the two ill-formed calls at every position, on the model ...
+    consts = planner_consts(3, "{1}", "{3}", 2, unnamed=True, rejects=True) if ctx.quick() else \
+        planner_consts(3, "{1,2}", "{1,3}", 2, unnamed=True, rejects=True)
+    planner_mc(ctx, consts, PLANNER_INVS["C18"], emit=False, properties=["C18Action"], label="rejects")
+    invs = TRACE_INVS["C18"]
+    if ctx.quick():
+        r = planner_mc(ctx, planner_consts(3, "{1,2}", "{1,3}", 1), PLANNER_INVS["C18"], label="q")
+        planner_s2i(ctx, r["replay"], invs, variants=1)
+        planner_i2s(ctx, invs, count=60, nmin=4, nmax=40, nres=6, extra=["--pill", 0.2])
+        planner_i2s(ctx, invs, count=6, nmin=150, nmax=400, nres=10, extra=["--pill", 0.03], seed_off=1)
+        # funnel: many conflicting systems with all running-time hints over very few resources
+        planner_i2s(ctx, invs, count=30, nmin=20, nmax=80, nres=2, extra=["--pdep", 0.05], seed_off=2)
+    else:
+        r = planner_mc(ctx, planner_consts(3, "{1,2}", "{1,3,5}", 2, unnamed=True), PLANNER_INVS["C18"], label="t1")
+        planner_s2i(ctx, r["replay"], invs, variants=1)
+        planner_i2s(ctx, invs, count=600, nmin=4, nmax=60, nres=6, extra=["--pill", 0.2])
+        planner_i2s(ctx, invs, count=40, nmin=150, nmax=500, nres=10, extra=["--pill", 0.03], seed_off=1)
+        planner_i2s(ctx, invs, count=300, nmin=20, nmax=120, nres=2, extra=["--pdep", 0.05], seed_off=2)
+    ctx.assumptions.append("panic messages are classified by their text (No such system registered / Cannot insert multiple systems)")
+
+
+def merge_variants(ctx, a_path, b_path, offset):
+    """Interleave the blocks of two processes by program number; the second process's
+    variant numbers are shifted so that variant 0 of the first process stays the reference."""
+    def blocks_by_prog(path, off):
+        out = {}
+        for blk in split_blocks(path):
+            e = json.loads(blk[0])
+            e["var"] += off
+            blk = [json.dumps(e) + "\n"] + blk[1:]
+            out.setdefault(e["prog"], []).append(blk)
+        return out
+    A, B = blocks_by_prog(a_path, 0), blocks_by_prog(b_path, offset)
+    out = ctx.fresh("merged", "ndjson")
+    with open(out, "w") as f:
+        for k in sorted(A):
+            for blk in A[k] + B.get(k, []):
+                f.writelines(blk)
+    return out
+
+
+def check_C19(ctx):
+    invs = TRACE_INVS["C19"]
+    nvar = 3 if ctx.quick() else 5
+    # design: the planner model is a function of the registration sequence (every action is
+    # deterministic given its input); TLC enumerates, the harness instantiates each behaviour under
+    # renamings / relabellings / list permutations and all real layouts must coincide
+    r = planner_mc(ctx, planner_consts(3, "{1,2}", "{1,3}", 2) if ctx.quick() else planner_consts(3, "{1,2}", "{1,3,5}", 2, unnamed=True),
+                   PLANNER_INVS["C19"], label="q")
+    planner_s2i(ctx, r["replay"], invs, variants=nvar)
+    planner_s2i(ctx, r["replay"], invs, variants=2, parallel=False)
+    # two processes, two feature sets: same seed => same programs; blocks merged per program
+    for (cnt, nmin, nmax, nres, off) in ([(40, 4, 40, 8, 0), (5, 100, 300, 14, 1)] if ctx.quick() else [(300, 4, 60, 10, 0), (30, 100, 400, 16, 1)]):
+        a = planner_i2s(ctx, invs, count=cnt, nmin=nmin, nmax=nmax, nres=nres, variants=nvar, seed_off=off)
+        a2 = ctx.fresh("keepA", "ndjson")
+        os.rename(a, a2)
+        b = planner_i2s(ctx, invs, count=cnt, nmin=nmin, nmax=nmax, nres=nres, variants=nvar, seed_off=off, parallel=False)
+        m = merge_variants(ctx, a2, b, nvar)
+        validate_blocks(ctx, "ShredTrace", m, invs, classify=classify_block)
+        ctx.cov["impl_runs"].append({"kind": "two processes (with / without `parallel`) merged per program", "programs": cnt,
+                                     "variants_total": 2 * nvar})
+    ctx.assumptions.append("two processes and two feature configurations are sampled, not all")
 
 
 def check_C10(ctx):
@@ -193,6 +389,12 @@ CHECKS = {
     "C02": check_C02,
     "C03": check_C03,
     "C04": check_C04,
+    "C05": check_C05,
+    "C07": check_C07,
+    "C12": check_C12,
+    "C14": check_C14,
+    "C18": check_C18,
+    "C19": check_C19,
     "C10": check_C10,
     "C20": check_C20,
 }
@@ -205,7 +407,10 @@ for _m in ["props_world", "props_sysdata", "props_meta", "props_parseq"]:
         _mod = importlib.import_module(_m)
     except ModuleNotFoundError:
         continue
-    CHECKS.update(_mod.CHECKS)
+    except Exception as _e:          # a contributor module that does not load must not break the others
+        log("NOTE: %s not loaded: %r" % (_m, _e))
+        continue
+    CHECKS.update(getattr(_mod, "CHECKS", {}))
     EXTRA_MODULES += list(getattr(_mod, "MODULES", []))
 
 
